@@ -616,11 +616,11 @@ var ruleSCC = &core.Rule{ID: "R16.1", Min: 2,
 					}
 					// or upwards: the receiver's parent, under the test that there is one (the parent chain is finite and
 					// acyclic: R03.1, R14.1, R06.3)
-					if base, fld, isLd := core.LoadOfField(arg); !good && isLd && fld == tm.FParent && len(f.Params) > 0 && base == ssa.Value(f.Params[0]) {
+					if wmU := upwardModel(c); !good && wmU != nil && len(f.Params) > 0 && wmU.isParentOf(arg, f.Params[0]) {
 						for _, de := range core.DominatingConds(ci.Block()) {
 							cond, val := core.StripNot(de.Cond, de.Val)
 							if bo, isBo := cond.(*ssa.BinOp); isBo && core.IsNilConst(bo.Y) && ((bo.Op == token.NEQ && val) || (bo.Op == token.EQL && !val)) {
-								if b2, f2, isLd2 := core.LoadOfField(bo.X); isLd2 && f2 == tm.FParent && b2 == ssa.Value(f.Params[0]) {
+								if wmU.isParentOf(bo.X, f.Params[0]) {
 									good = true
 								}
 							}
@@ -637,6 +637,17 @@ var ruleSCC = &core.Rule{ID: "R16.1", Min: 2,
 		s.Check(len(sccs) >= 2, "recursive components found", "-", fmt.Sprint(len(sccs)), "fewer recursive components than the walk and the scanner")
 		_ = types.Typ
 	}}
+
+// upwardModel: the walk model, for its notion of "parent of" (field load or
+// accessor call); nil when the walk cannot be modelled.
+func upwardModel(c *core.Ctx) (m *walkModel) {
+	defer func() {
+		if recover() != nil {
+			m = nil
+		}
+	}()
+	return getWalk(c)
+}
 
 // treeWorklist recognises `for len(pending) > 0 { n := pop(pending); ...; pending = append(pending, children of n...) }`:
 // the loop-carried slice of tree nodes loses its last element in every iteration and only gains children of the
